@@ -193,6 +193,9 @@ func runWorker(args []string) int {
 			res.BudgetHit = true
 			break
 		}
+		if raceEnabled {
+			fmt.Fprintf(os.Stderr, "RUN %d\n", r)
+		}
 		tp := core.NewTape(core.RunSeed(*seed, *prop, r))
 		rr := core.Exec(*prop, tp, false, func(c *core.Ctx) *core.Violation { c.Env = env; return f(c) })
 		res.Runs++
@@ -271,6 +274,7 @@ func runWorker(args []string) int {
 			break
 		}
 	}
+	props.Cleanup()
 	for s := range sigs {
 		res.Sigs = append(res.Sigs, s)
 	}
@@ -315,8 +319,12 @@ func runReplay(args []string) int {
 		fmt.Fprintf(os.Stderr, "vsim: no such property %q\n", rf.Property)
 		return 2
 	}
+	if strings.HasSuffix(rf.Class, "/race") {
+		return replayRace(&rf, *file)
+	}
 	env := map[string]string{"tier": rf.Tier, "self": os.Args[0], "race": strconv.FormatBool(raceEnabled)}
 	res := execTape(rf.Property, rf.Tape, true, env)
+	props.Cleanup()
 	if res.Harness != nil {
 		fmt.Printf("REPLAY-DIVERGED harness panic: %v\n%s\n", res.Harness.Val, res.Harness.Stack)
 		return 2
@@ -428,6 +436,7 @@ func runCheck(args []string) int {
 	sigs := map[uint64]struct{}{}
 	broken := []string{}
 	raceRuns := 0
+	raceSeen := map[string]bool{}
 	// watchdog: a worker may take budget + grace
 	grace := budget + 5*time.Minute
 	for i, j := range jobs {
@@ -445,12 +454,36 @@ func runCheck(args []string) int {
 		b, rerr := os.ReadFile(j.out)
 		var wo workerOut
 		if rerr != nil || json.Unmarshal(b, &wo) != nil {
-			msg := fmt.Sprintf("worker %d produced no result (%v)", i, werr)
-			if strings.Contains(j.errb.String(), "WARNING: DATA RACE") {
-				msg += " — race detector report:\n" + j.errb.String()
-			} else {
-				msg += ":\n" + lastLines(j.errb.String(), 40)
+			errOut := j.errb.String()
+			if strings.Contains(errOut, "WARNING: DATA RACE") {
+				// the race build stopped the worker: identify the run, confirm and minimise it
+				k := strings.Index(errOut, "WARNING: DATA RACE")
+				ms := runMarker.FindAllStringSubmatch(errOut[:k], -1)
+				if len(ms) == 0 {
+					broken = append(broken, fmt.Sprintf("worker %d: race report before any run:\n%s", i, lastLines(errOut, 60)))
+					continue
+				}
+				rr, _ := strconv.Atoi(ms[len(ms)-1][1])
+				raceRuns += len(ms)
+				total.Runs += len(ms)
+				if _, lib := raceSummary(errOut); !lib {
+					broken = append(broken, fmt.Sprintf("worker %d run %d: race report without a frame in the library (a race inside the harness):\n%s", i, rr, lastLines(errOut, 80)))
+					continue
+				}
+				sumKey, _ := raceSummary(errOut)
+				if raceSeen[sumKey] || len(raceSeen) >= 2 {
+					continue // same conflicting pair already confirmed and minimised
+				}
+				raceSeen[sumKey] = true
+				vr, problem := confirmRace(*prop, seed, *tier, rr, *raceBin, cfg.singleProc)
+				if vr == nil {
+					broken = append(broken, fmt.Sprintf("worker %d: %s", i, problem))
+					continue
+				}
+				total.Violations = append(total.Violations, *vr)
+				continue
 			}
+			msg := fmt.Sprintf("worker %d produced no result (%v):\n%s", i, werr, lastLines(errOut, 40))
 			broken = append(broken, msg)
 			continue
 		}
@@ -501,11 +534,7 @@ func runCheck(args []string) int {
 			continue
 		}
 		seenClass[key] = true
-		bin := os.Args[0]
-		if strings.HasSuffix(v.Class, "/race") && *raceBin != "" {
-			bin = *raceBin
-		}
-		c := exec.Command(bin, "replay", "-file", v.Replay, "-quiet")
+		c := exec.Command(os.Args[0], "replay", "-file", v.Replay, "-quiet")
 		c.Env = append(os.Environ(), "GORACE=halt_on_error=1 exitcode=66")
 		if cfg.singleProc {
 			c.Env = append(c.Env, "GOMAXPROCS=1")
@@ -647,6 +676,7 @@ func runDigest(args []string) int {
 		return 2
 	}
 	env := map[string]string{"tier": "quick", "self": os.Args[0], "race": strconv.FormatBool(raceEnabled)}
+	defer props.Cleanup()
 	for r := 0; r < *n; r++ {
 		tp := core.NewTape(core.RunSeed(*seed, *prop, r))
 		rr := core.Exec(*prop, tp, false, func(c *core.Ctx) *core.Violation { c.Env = env; return f(c) })
@@ -658,6 +688,121 @@ func runDigest(args []string) int {
 			v = "HARNESS"
 		}
 		fmt.Printf("%d %016x %d %s\n", r, rr.Ctx.L.Digest, rr.Ctx.L.Seq, v)
+	}
+	return 0
+}
+
+// runTape prints the recorded tape of one run as JSON.
+func runTape(args []string) int {
+	fs := flag.NewFlagSet("tape", flag.ExitOnError)
+	prop := fs.String("prop", "", "")
+	seed := fs.Uint64("seed", defaultSeed, "")
+	run := fs.Int("run", 0, "")
+	tier := fs.String("tier", "quick", "")
+	fs.Parse(args)
+	f := props.Registry[*prop]
+	if f == nil {
+		return 2
+	}
+	env := map[string]string{"tier": *tier, "self": os.Args[0], "race": strconv.FormatBool(raceEnabled)}
+	tp := core.NewTape(core.RunSeed(*seed, *prop, *run))
+	core.Exec(*prop, tp, false, func(c *core.Ctx) *core.Violation { c.Env = env; return f(c) })
+	props.Cleanup()
+	b, _ := json.Marshal(tp.Rec)
+	os.Stdout.Write(b)
+	return 0
+}
+
+type execTapeReq struct {
+	Property string   `json:"property"`
+	Tier     string   `json:"tier"`
+	Tape     []uint32 `json:"tape"`
+}
+
+// runExecTape executes a tape given on stdin. Exit 0: no violation; 1: oracle
+// violation (class on stdout); 66: the race detector stopped the process.
+func runExecTape() int {
+	var req execTapeReq
+	if err := json.NewDecoder(os.Stdin).Decode(&req); err != nil {
+		fmt.Fprintln(os.Stderr, err)
+		return 2
+	}
+	if props.Registry[req.Property] == nil {
+		return 2
+	}
+	env := map[string]string{"tier": req.Tier, "self": os.Args[0], "race": strconv.FormatBool(raceEnabled)}
+	res := execTape(req.Property, req.Tape, false, env)
+	props.Cleanup()
+	if res.Harness != nil {
+		fmt.Printf("HARNESS %v\n", res.Harness.Val)
+		return 2
+	}
+	b, _ := json.Marshal(res.Ctx.T.Rec)
+	fmt.Printf("TAPE %s\n", b)
+	if res.V != nil {
+		fmt.Printf("CLASS %s\n", res.V.Class)
+		return 1
+	}
+	return 0
+}
+
+// runTriage prints one minimised example per (class, facts) among n runs (development aid).
+func runTriage(args []string) int {
+	fs := flag.NewFlagSet("triage", flag.ExitOnError)
+	prop := fs.String("prop", "", "")
+	seed := fs.Uint64("seed", defaultSeed, "")
+	n := fs.Int("n", 2000, "")
+	byClass := fs.Bool("by-class", false, "")
+	fs.Parse(args)
+	f := props.Registry[*prop]
+	env := map[string]string{"tier": "quick", "self": os.Args[0], "race": strconv.FormatBool(raceEnabled)}
+	seen := map[string]int{}
+	defer props.Cleanup()
+	for r := 0; r < *n; r++ {
+		tp := core.NewTape(core.RunSeed(*seed, *prop, r))
+		rr := core.Exec(*prop, tp, false, func(c *core.Ctx) *core.Violation { c.Env = env; return f(c) })
+		if rr.Harness != nil {
+			fmt.Printf("run %d HARNESS PANIC %v\n%s\n", r, rr.Harness.Val, rr.Harness.Stack)
+			return 2
+		}
+		if rr.V == nil {
+			continue
+		}
+		key := rr.V.Class + " " + rr.V.Facts
+		if *byClass {
+			key = rr.V.Class
+		}
+		seen[key]++
+		if seen[key] > 1 {
+			continue
+		}
+		class := rr.V.Class
+		small, _ := core.Shrink(tp.Rec, class, func(tape []uint32) (*core.Violation, []uint32) {
+			x := execTape(*prop, tape, false, env)
+			if x.Harness != nil {
+				return nil, nil
+			}
+			return x.V, x.Ctx.T.Rec
+		}, 1500, 10*time.Second)
+		fin := execTape(*prop, small, true, env)
+		fmt.Printf("=== run %d %s\n", r, key)
+		for _, d := range fin.Ctx.Desc {
+			fmt.Println("   ", d)
+		}
+		for _, l := range tail(fin.Ctx.L.Lines, 12) {
+			fmt.Println("    ", l)
+		}
+		if fin.V != nil {
+			fmt.Println("   =>", fin.V.String())
+		}
+	}
+	keys := make([]string, 0, len(seen))
+	for k := range seen {
+		keys = append(keys, k)
+	}
+	sort.Strings(keys)
+	for _, k := range keys {
+		fmt.Printf("%6d %s\n", seen[k], k)
 	}
 	return 0
 }
@@ -676,6 +821,20 @@ func main() {
 		os.Exit(runReplay(os.Args[2:]))
 	case "digest":
 		os.Exit(runDigest(os.Args[2:]))
+	case "solo":
+		out, err := props.SoloMain(os.Args[2:])
+		if err != nil {
+			fmt.Fprintln(os.Stderr, err)
+			os.Exit(2)
+		}
+		os.Stdout.Write(out)
+		os.Exit(0)
+	case "tape":
+		os.Exit(runTape(os.Args[2:]))
+	case "exec-tape":
+		os.Exit(runExecTape())
+	case "triage":
+		os.Exit(runTriage(os.Args[2:]))
 	}
 	fmt.Fprintln(os.Stderr, "vsim: unknown command", os.Args[1])
 	os.Exit(2)
